@@ -25,7 +25,9 @@ func genData(t *core.Tape, n int, alphabet int) []byte {
 			b = append(b, "abcdefghijklmnopqrstuvwxyz ABC-_01239\n"[src.Draw(38)])
 		case 1: // valid UTF-8 of all widths
 			var r rune
-			switch src.Draw(4) {
+			switch src.Draw(5) {
+			case 4: // class boundaries of the encoding, and U+0000 (a valid character that looks like the terminator)
+				r = []rune{0, 0x7F, 0x80, 0x7FF, 0x800, 0xD7FF, 0xE000, 0xFFFD, 0xFFFF, 0x10000, 0x10FFFF}[src.Draw(11)]
 			case 0:
 				r = rune('a' + src.Draw(26))
 			case 1:
